@@ -61,6 +61,9 @@ def gen_history(rng, tree, T, family="scales", lo=-2, hi=2):
         v = base[k] * (1.0 + 0.0 * t)
       elif family == "zeros" and t % 3 == 1:
         v = np.zeros(s)
+      elif family == "sparse":
+        # exact zeros in some entries (sign(0) = 0, embedding-like gradients)
+        v = rng.standard_normal(s) * (rng.random(s) < 0.6) * 10 ** rng.uniform(lo, hi)
       elif family == "lowrank" and len(s) >= 2:
         a = rng.standard_normal((s[0], 1))
         b = rng.standard_normal((1,) + s[1:])
